@@ -54,6 +54,13 @@ def cases(tier, seed):
             out.append({"desc": d, "maxlen": 1 if tier == "quick" else 2, "w": 60, "wide": True})
             continue
         out.append({"desc": d, "maxlen": 3 if tier == "quick" else 4, "w": nf ** 2 * len(d["levels"])})
+    # field names with a blank or a comma (they are whole header lines; every piece is a field name of its own too)
+    for nd in (2, 3):
+        m = scope.named_meshes(nd)[1]
+        d = dict(m)
+        d.update(list(scope.geometries(nd))[(seed + 2) % 6])
+        d.update({"fields": ["temp", "temp max", "max", "a,b"], "payload": "coded", "seed": seed, "layout": [None, scope.layouts(len(m["levels"][1]), 'idrev')[-1]]})
+        out.append({"desc": d, "maxlen": 2, "w": 20})
     # twelve fields: the component count changes its number of digits between input and output
     for nd in (2, 3):
         m = scope.named_meshes(nd)[2]
